@@ -140,6 +140,23 @@ def r1_truth_tables(repo: Repo, rep):
             ok, cex, n = B.equivalent(f, want, closed_generic, extra_atoms=names)
             rep.check(R, ok, fi.site(p.ret_node), fi.fq, f"≡ {txt} on all {n} admissible assignments",
                       f"{B.show(f)}" + ("" if ok else f"; differs at {cex}"), B.show(f))
+            if ok and is_b:
+                # tolerance independence: the boundary test of an operand is tolerant (isclose), its interior test is exact; for a point on
+                # X's boundary (and not on the other one) the answer must not depend on X's own exact interior test
+                dep = None
+                for X, O in (("a", "b"), ("b", "a")):
+                    for asg in B.assignments(names, None):
+                        if not asg[f"on_{X}"] or asg[f"on_{O}"] or not asg[f"in_{X}"]:
+                            continue
+                        flipped = dict(asg)
+                        flipped[f"in_{X}"] = False
+                        if B.ev(f, asg) != B.ev(f, flipped):
+                            dep = (X, {k: v for k, v in asg.items() if k != f"in_{X}"})
+                            break
+                    if dep:
+                        break
+                rep.check(R, dep is None, fi.site(p.ret_node), fi.fq, "a point the operand's (tolerant) boundary test accepts is not asked to pass that operand's exact interior test as well",
+                          f"{B.show(f)}: for a point on ∂{dep[0]} the answer changes with in_{dep[0]} at {dep[1]}" if dep else "", f"needs in_{dep[0]} on ∂{dep[0]}" if dep else "")
     # product boundary = (∂A × B) ∪ (A × ∂B)
     pd = repo.cls(f"{OPS}.product.ProductDomain")
     bfi = pd.methods.get("boundary")
@@ -626,6 +643,8 @@ def run(repo: Repo, rep):
     r6_answer_shape(repo, rep)
     from .c12 import r3_selection  # the name-based selection this property's idioms rely on
     r3_selection(repo, rep)
+    from .c13 import r2_r3_mapping  # shape functions are evaluated with each row's own values: given names win over stored defaults
+    r2_r3_mapping(repo, rep)
     from .c17 import r1_roundtrip  # a partially evaluated expression denotes the same set: every constructor argument (pivot, flags, sub-domains) must be carried over
     r1_roundtrip(repo, rep)
 
